@@ -78,6 +78,7 @@ def execute(case):
     ops = case['ops']
     events, mism = [], []
     obj = None
+    frozen = []
     grid_binding = True
     for k, op in enumerate(ops):
         act = op['act']
@@ -98,6 +99,9 @@ def execute(case):
             extra = {'i': i, 'raised': raised}
             act = 'pop'
         elif act == 'reload':
+            # the object that is serialised stays behind; it must never change again (frozen events)
+            fx = 0.5 * (max(obj.intervals) + 1.0)
+            frozen.append((obj, _state(obj), fx, float(obj.get_UoRT(x=fx, T=T_POINTS[0]))))
             if op.get('via', 'dict') == 'json':
                 obj = _json.loads(_json.dumps(obj, cls=pmuttEncoder), object_hook=json_to_pmutt)
             else:
@@ -105,6 +109,18 @@ def execute(case):
         else:
             raise core.MachineryError('unknown op %r' % (op,))
         events.append(_state_ev(act, obj, extra))
+        for (fo, (siv, ssl, sic), fx, sU) in frozen:
+            if fo is obj:
+                continue
+            iv2, sl2, ic2 = _state(fo)
+            try:
+                U2 = float(fo.get_UoRT(x=fx, T=T_POINTS[0]))
+            except Exception:
+                U2 = float('inf')
+            events.append({'ev': 'frozen', 'iv': [to_dec(v) for v in iv2], 'sl': [to_dec(v) for v in sl2],
+                           'ic': [to_dec(v) for v in ic2], 'siv': [to_dec(v) for v in siv],
+                           'ssl': [to_dec(v) for v in ssl], 'sic': [to_dec(v) for v in sic],
+                           'U': to_dec(U2) if core.finite(U2) else [1, 99], 'sU': to_dec(sU)})
         # An insertion at an existing breakpoint may legitimately go before or after it (both keep the
         # lists ascending and paired; the property does not choose): from that step on the expected
         # states of the deterministic model are no longer binding, the relation InsertOK (trace spec) is.
@@ -186,6 +202,10 @@ def run(ctx):
         if bad.ok or bad.violated is None:
             raise core.MachineryError('the argmax variant should be rejected by the design model')
         ctx.notes.append('design model rejects the numpy.argmax insertion rule: %s violated' % bad.violated)
+        bad2 = ctx.model('MC_CovEffect', 'MC_CovEffect_alias', expect_ok=False)
+        if bad2.ok or bad2.violated is None:
+            raise core.MachineryError('the list-sharing reload variant should be rejected by the design model')
+        ctx.notes.append('design model rejects a reload that shares its lists with the original: %s violated' % bad2.violated)
         # (S->C) behaviours
         r = core.run_tlc('MC_CovEffect', 'MC_CovEffect_beh', workers=1, timeout=900)
         if not r.ok:
